@@ -353,6 +353,11 @@ YR_API void yr_scanner_destroy(YR_SCANNER* scanner)
     position = next;
   }
 
+  // The notebook is still alive if the last scan was suspended with
+  // ERROR_BLOCK_NOT_READY and never resumed.
+  if (scanner->matches_notebook != NULL)
+    yr_notebook_destroy(scanner->matches_notebook);
+
   if (scanner->objects_table != NULL)
   {
     yr_hash_table_destroy(
@@ -491,6 +496,17 @@ YR_API int yr_scanner_scan_mem_blocks(
   }
   else
   {
+    // This is a new scan. If a previous scan was suspended with
+    // ERROR_BLOCK_NOT_READY and never resumed, its matches and its notebook
+    // are still around; release them so that they don't leak nor show up in
+    // the results of this scan.
+    if (scanner->matches_notebook != NULL)
+    {
+      _yr_scanner_clean_matches(scanner);
+      yr_notebook_destroy(scanner->matches_notebook);
+      scanner->matches_notebook = NULL;
+    }
+
     // Create the notebook that will hold the YR_MATCH structures representing
     // each match found. This notebook will also contain snippets of the
     // matching data (the "data" field in YR_MATCH points to the snippet
